@@ -310,6 +310,33 @@ Theorem c17_trylock_acquire_accounting :
 Proof. exact mx_trylock_acquire_accounting. Qed.
 Print Assumptions c17_trylock_acquire_accounting.
 
+(* the waiter field never exceeds the number of threads; so with fewer than 2^28 threads the word
+   of every reachable state is a non-negative int32 -- the model's unbounded field arithmetic
+   is int32 arithmetic, and c17_count_truthful applies to every word Count can load *)
+Theorem c17_mutex_word_is_int32 :
+  forall progs sched,
+    Z.of_nat (length progs) < 2 ^ 28 ->
+    mx_valid_word (mx_enc (xword (mx_final (mx_init progs) sched))).
+Proof. exact mx_word_valid. Qed.
+Print Assumptions c17_mutex_word_is_int32.
+
+Theorem c17_mutex_waiters_le_threads :
+  forall progs sched, (xn (xword (mx_final (mx_init progs) sched)) <= length progs)%nat.
+Proof. exact mx_waiters_le_threads. Qed.
+Print Assumptions c17_mutex_waiters_le_threads.
+
+(* statement sanity check: the dead-end branches of the step function are real -- from
+   (unreachable) states each one is taken: awoke without mutexWoken; starvation wake-up on a locked
+   word; on a word without waiters; hand-off addition on a locked word; Unlock of an unlocked word *)
+Example c17_dead_ends_exist :
+  snd (mx_step_th {| xl := true; xk := false; xs := false; xn := 0 |} 0
+         (mx_mkth (XLCas 0 0 true false {| xl := true; xk := false; xs := false; xn := 0 |}) false [])) = XEPanic /\
+  snd (mx_step_th {| xl := true; xk := false; xs := true; xn := 1 |} 0 (mx_mkth (XLWoke 0 0 true) false [])) = XEPanic /\
+  snd (mx_step_th {| xl := false; xk := false; xs := true; xn := 0 |} 0 (mx_mkth (XLWoke 0 0 true) false [])) = XEPanic /\
+  snd (mx_step_th {| xl := true; xk := false; xs := true; xn := 1 |} 0 (mx_mkth (XLHand true) false [])) = XEPanic /\
+  snd (mx_step_th {| xl := false; xk := false; xs := false; xn := 1 |} 0 (mx_mkth XU1 true [])) = XEPanic.
+Proof. exact mx_dead_ends_exist. Qed.
+
 (* non-vacuity.  Run A: TryLock takes the mutex by its second CAS while a Lock caller is queued
    (word: 1 waiter, unlocked, the previous holder between its AddInt32(-1) and unlockSlow's
    CAS), the previous holder's unlockSlow gets out of the way, the TryLock holder's Unlock wakes
